@@ -178,6 +178,30 @@ func c16Corpus(e *fw.Env) []c16File {
 			out = append(out, c16File{Name: "mux/anim-" + fr.name, Data: append([]byte(nil), b2.Bytes()...), Package: true})
 		}
 	}
+	// frames whose ALPH payload is stored raw but filtered (what the encoder's size fallback writes):
+	// un-filtering has to produce a new plane, the payload belongs to the caller's file
+	for _, fr := range c14FrameSet {
+		if len(fr.alpha) != 1+fr.w*fr.h || fr.alpha[0] != 0 {
+			continue
+		}
+		for flt := 1; flt <= 3; flt++ {
+			al := append([]byte{byte(flt << 2)}, alphaFilter(fr.alpha[1:], fr.w, fr.h, flt)...)
+			data := append(riffwalk.ChunkBytes("ALPH", al), fr.bitstream...)
+			m := mux.NewMuxer()
+			m.AddFrame(data, nil)
+			var b bytes.Buffer
+			if m.Assemble(&b) == nil {
+				out = append(out, c16File{Name: fmt.Sprintf("mux/still-rawalpha-filter%d-%s", flt, fr.name), Data: append([]byte(nil), b.Bytes()...)})
+			}
+			m2 := mux.NewMuxer()
+			m2.AddFrame(data, &mux.FrameOptions{Duration: 30})
+			m2.AddFrame(data, &mux.FrameOptions{Duration: 40})
+			var b2 bytes.Buffer
+			if m2.Assemble(&b2) == nil {
+				out = append(out, c16File{Name: fmt.Sprintf("mux/anim-rawalpha-filter%d-%s", flt, fr.name), Data: append([]byte(nil), b2.Bytes()...)})
+			}
+		}
+	}
 	// canvases at the boundaries of the size fields: the VP8X canvas has 24 bits per side, the
 	// VP8 / VP8L picture headers 14, and every reader has its own idea of a limit
 	for _, c := range [][2]int{{1, 1}, {16383, 4}, {16384, 4}, {4, 16384}, {20000, 6}, {65535, 3}, {65536, 2}, {1 << 24, 1}, {2, 1 << 24}} {
